@@ -28,6 +28,18 @@ def make_case(ctx, i):
         if d["k"] == "scalar":
             scalar_cfg[d["name"]] = "string"
             scalar_texts[d["name"]] = dict(ri="string", ro="string", oi="string", oo="string")
+    if r.chance(1, 2):
+        # a schema type whose name also occurs as an identifier in a scalar's TypeScript text is declared under a local name
+        # (`__tmp_Record`, exported as `Record`): pick a union member (else any object) for it; its map segments must still carry the
+        # SOURCE identifier
+        scal = [d for d in m["defs"] if d["k"] == "scalar"]
+        members = [x["n"] for d in m["defs"] if d["k"] == "union" for x in d["members"]]
+        objs = [d["name"] for d in m["defs"] if d["k"] == "object" and d["name"] not in ("Query", "Mutation", "Subscription", "Q", "M")]
+        pool = [n for n in members if n in objs] or objs
+        if scal and pool:
+            TG.rename_type(m, r.choice(pool), "Record")
+            scalar_cfg[scal[0]["name"]] = "Record<string, unknown>"
+            scalar_texts[scal[0]["name"]] = dict(ri="Record<string, unknown>", ro="Record<string, unknown>", oi="Record<string, unknown>", oo="Record<string, unknown>")
     mode = MODES[i % 3]
     layout = i % 6
     # (the last two: an output directory whose NAME is a proper string prefix of an input directory's name - "sch" / "schema", "op" / "ops")
